@@ -15,6 +15,7 @@ import (
 	"fmt"
 	"io"
 	"net/http"
+	"net/http/httptest"
 	"net/url"
 	"strings"
 	"time"
@@ -123,8 +124,8 @@ type RO struct {
 	Alg       string
 	Kid       Handle
 	Iss       int
-	AudOK     bool
-	AudAbsent bool // rendering only
+	Aud       []string // members of "aud", constructors of Jar.v's `audience` (AudIssuer, AudToken, ...); empty = absent
+	AudForm   string   `json:",omitempty"` // rendering only: "" absent when empty, else a JSON array | string: the first member as a plain string | array: always an array
 	EncHow    string `json:",omitempty"` // rendering only, for EncBad: "" another key | keyalg | contentalg | nokid (server key otherwise)
 	Exp       *int
 	Nbf       *int
@@ -148,9 +149,22 @@ func (o RO) coq() string {
 	if o.Sig == "SigBy" {
 		sig = "(SigBy " + cN(o.SigKey) + ")"
 	}
-	return fmt.Sprintf("(mkRO %s %s %s %s %d %s %s %s %s %s %d %s %s %s)", o.Enc, sig, o.Alg, cN(o.Kid), o.Iss, cB(o.AudOK),
+	return fmt.Sprintf("(mkRO %s %s %s %s %d %s %s %s %s %s %d %s %s %s)", o.Enc, sig, o.Alg, cN(o.Kid), o.Iss, cList(o.Aud, func(a string) string { return a }),
 		jOptZ(o.Exp), jOptZ(o.Nbf), jOptZ(o.Iat), cB(o.Jti), o.ClientID, cB(o.NestedReq), cB(o.NestedURI), o.Params.coq())
 }
+// does the object name the URL of the request that delivers it among its audiences?
+func (o *RO) namesRequestURL() bool {
+	if o == nil {
+		return false
+	}
+	for _, a := range o.Aud {
+		if a == "AudRequestURL" || a == "AudMtlsRequestURL" {
+			return true
+		}
+	}
+	return false
+}
+
 func optRO(o *RO) string {
 	if o == nil {
 		return "None"
@@ -246,6 +260,7 @@ type JWorld struct {
 	JCl  []JClient
 	refs map[string]string // request_uri -> body served by the client's host
 	nref int
+	reqURI string // RequestURI of the request that delivers the object being rendered
 }
 
 func NewJWorld(spec WorldSpec, jc JCfg, jcl []JClient) (*JWorld, error) {
@@ -328,10 +343,17 @@ func (jw *JWorld) claims(o *RO) map[string]any {
 	default:
 		m["iss"] = clientName(o.Iss)
 	}
-	if o.AudOK {
-		m["aud"] = []string{"https://other.example", issuer}
-	} else if !o.AudAbsent {
-		m["aud"] = "https://other.example"
+	var auds []string
+	for _, a := range o.Aud {
+		auds = append(auds, jw.audString(a, o))
+	}
+	switch {
+	case o.AudForm == "string" && len(auds) > 0:
+		m["aud"] = auds[0]
+	case o.AudForm == "array" && len(auds) == 0:
+		m["aud"] = []string{}
+	case len(auds) > 0:
+		m["aud"] = auds
 	}
 	if o.Exp != nil {
 		m["exp"] = now + int64(*o.Exp)
@@ -363,6 +385,47 @@ func (jw *JWorld) claims(o *RO) map[string]any {
 		m[k] = v.Get(k)
 	}
 	return m
+}
+
+// the concrete value of an abstract audience member (Jar.v `audience`); jw.reqURI is the RequestURI of the
+// request that delivers the object (an object by value that names the request URL is sent by POST, whose
+// RequestURI is the bare path)
+const c07MTLSHost = "https://mtls.as.example" // what world.go passes to provider.WithMTLS
+
+func (jw *JWorld) audString(a string, o *RO) string {
+	pfx := jw.W.prefix()
+	switch a {
+	case "AudIssuer":
+		return issuer
+	case "AudIssuerSlash":
+		return issuer + "/"
+	case "AudIssuerCase":
+		return strings.Replace(issuer, "as.example", "AS.example", 1)
+	case "AudToken":
+		return issuer + pfx + "/token"
+	case "AudAuthorize":
+		return issuer + pfx + "/authorize"
+	case "AudPar":
+		return issuer + pfx + "/par"
+	case "AudBc":
+		return issuer + pfx + "/bc-authorize"
+	case "AudRequestURL":
+		return issuer + jw.reqURI
+	case "AudMtlsIssuer":
+		return c07MTLSHost
+	case "AudMtlsToken":
+		return c07MTLSHost + pfx + "/token"
+	case "AudMtlsRequestURL":
+		return c07MTLSHost + jw.reqURI
+	case "AudClient":
+		if o.ClientID != 0 {
+			return clientName(o.ClientID)
+		}
+		return clientName(1)
+	case "AudForeign":
+		return "https://other.example"
+	}
+	panic("audience " + a)
 }
 
 func jB64(b []byte) string { return base64.RawURLEncoding.EncodeToString(b) }
@@ -477,6 +540,7 @@ func (jw *JWorld) Exec(step int, o JOp) JObs {
 		b.Params.values(w, v)
 		switch o.Jar {
 		case "value":
+			jw.reqURI = pfx + "/authorize"
 			v.Set("request", jw.render(o.Obj))
 		case "ref":
 			jw.nref++
@@ -485,10 +549,11 @@ func (jw *JWorld) Exec(step int, o JOp) JObs {
 				scheme = "http"
 			}
 			u := fmt.Sprintf("%s://c%d.example/ro/%d.jwt", scheme, b.Client, jw.nref)
+			v.Set("request_uri", u)
+			jw.reqURI = pfx + "/authorize?" + v.Encode() // exactly what ctx.Request.RequestURI will be
 			if o.Obj != nil {
 				jw.refs[u] = jw.render(o.Obj)
 			}
-			v.Set("request_uri", u)
 		}
 		extraRoundTrip = func(_ *World, r *http.Request) *http.Response {
 			if body, ok := jw.refs[r.URL.String()]; ok {
@@ -496,7 +561,15 @@ func (jw *JWorld) Exec(step int, o JOp) JObs {
 			}
 			return nil
 		}
-		rec, pan := w.serve("GET", pfx+"/authorize?"+v.Encode(), nil, nil)
+		var rec *httptest.ResponseRecorder
+		var pan any
+		if o.Jar == "value" && o.Obj.namesRequestURL() {
+			// an object by value cannot name the URL of a GET request that contains it: sent by POST, whose
+			// RequestURI is the bare path the object names (the method is not modelled: it must not matter)
+			rec, pan = w.serve("POST", pfx+"/authorize", v, nil)
+		} else {
+			rec, pan = w.serve("GET", pfx+"/authorize?"+v.Encode(), nil, nil)
+		}
 		extraRoundTrip = nil
 		obs = w.absAuthorize(rec, pan)
 	case "JPar":
@@ -505,6 +578,7 @@ func (jw *JWorld) Exec(step int, o JOp) JObs {
 		w.applyCred(b.Cred, v)
 		b.Params.values(w, v)
 		if o.Jar == "value" {
+			jw.reqURI = pfx + "/par"
 			v.Set("request", jw.render(o.Obj))
 		}
 		hdr := http.Header{}
@@ -517,6 +591,7 @@ func (jw *JWorld) Exec(step int, o JOp) JObs {
 		w.applyCred(b.Cred, v)
 		b.Params.values(w, v)
 		if o.Jar == "value" {
+			jw.reqURI = pfx + "/bc-authorize"
 			v.Set("request", jw.render(o.Obj))
 		}
 		w.initOK, w.initSub, w.initGr = b.InitOK, b.Sub, b.Granted
